@@ -122,6 +122,20 @@ fn cases(tier: Tier) -> Vec<Case> {
                     });
                 }
             }
+            // the parse is made from a destructor while the thread is unwinding
+            for w in words(2) {
+                for ending in 0..7 {
+                    v.push(Case {
+                        word: w.clone(),
+                        ending,
+                        rec: (false, false),
+                        entry: 2,
+                        depth: 50_000,
+                        stack_kib: 64,
+                        width: 0,
+                    });
+                }
+            }
             // depths beyond every "reasonable" limit an implementation might hard-code
             for w in [vec![0usize], vec![2], vec![0, 2]] {
                 for depth in [100_003usize, 131_073, 1_000_003] {
@@ -171,6 +185,19 @@ fn cases(tier: Tier) -> Vec<Case> {
                             });
                         }
                     }
+                }
+            }
+            for w in words(3) {
+                for ending in 0..7 {
+                    v.push(Case {
+                        word: w.clone(),
+                        ending,
+                        rec: (false, false),
+                        entry: 2,
+                        depth: 200_000,
+                        stack_kib: 64,
+                        width: 0,
+                    });
                 }
             }
             for w in words(3) {
@@ -325,7 +352,8 @@ fn run_case_in_thread(c: &Case) -> Result<(), String> {
     let h = std::thread::Builder::new()
         .stack_size(c.stack_kib * 1024)
         .spawn(move || -> Result<(), String> {
-            let r = if entry == 0 { Value::parse_slice_with(doc.as_bytes(), o) } else { Value::parse_str_with(&doc, o) };
+          let body = move || -> Result<(), String> {
+            let r = if entry != 1 { Value::parse_slice_with(doc.as_bytes(), o) } else { Value::parse_str_with(&doc, o) };
             match (r, err) {
                 (Ok((v, map)), None) => {
                     let n = v.traverse().count();
@@ -355,6 +383,29 @@ fn run_case_in_thread(c: &Case) -> Result<(), String> {
                     other => Err(format!("expected Unexpected({p}, {ch:?}), got {other:?}")),
                 },
             }
+          };
+          if entry != 2 {
+              return body();
+          }
+          // entry 2: the same parse made from a destructor while the thread is unwinding from a
+          // panic (the state of the thread is part of the environment: clean-up code that checks
+          // `thread::panicking()` behaves differently there)
+          struct Guard<F: FnOnce()>(Option<F>);
+          impl<F: FnOnce()> Drop for Guard<F> {
+              fn drop(&mut self) {
+                  if let Some(f) = self.0.take() {
+                      f()
+                  }
+              }
+          }
+          let slot = std::cell::RefCell::new(None);
+          let _ = std::panic::catch_unwind(std::panic::AssertUnwindSafe(|| {
+              let _g = Guard(Some(|| {
+                  *slot.borrow_mut() = Some(body());
+              }));
+              std::panic::resume_unwind(Box::new("unwinding on purpose"));
+          }));
+          slot.into_inner().unwrap_or_else(|| Err("the parse inside the destructor did not run".into()))
         })
         .map_err(|e| format!("cannot spawn thread: {e}"))?;
     match h.join() {
@@ -451,7 +502,7 @@ pub fn child_main() -> i32 {
 
 fn case_json(i: usize, c: &Case, tier: Tier) -> J {
     let ending = ["closed", "unclosed", "wrong innermost closer", "closed + trailing garbage", "wrong outermost closer", "deep first array item then a bad item", "deep first member then a bad key", "closed + an ill-formed byte", "closed + whitespace + a truncated UTF-8 sequence", "closed, then the character source fails"][c.ending as usize];
-    let entry = ["parse_slice_with", "parse_str_with"][c.entry as usize];
+    let entry = ["parse_slice_with", "parse_str_with", "parse_slice_with from a destructor while the thread is unwinding"][c.entry as usize];
     json!({
         "kind": "pump",
         "tier": tier.name(),
